@@ -8,6 +8,7 @@ import (
 
 	"github.com/pkg/errors"
 
+	"github.com/free5gc/ike/internal/verifhook"
 	"github.com/free5gc/ike/message"
 	ikeCrypto "github.com/free5gc/ike/security/IKECrypto"
 	"github.com/free5gc/ike/security/lib"
@@ -97,6 +98,7 @@ func (encr *EncrAesCbcCrypto) Encrypt(plainText []byte) ([]byte, error) {
 	}
 
 	// Slice
+	verifhook.At("encr.aescbc.padded", len(plainText))
 	cipherText := make([]byte, aes.BlockSize+len(plainText))
 	var initializationVector []byte
 	if encr.Iv == nil {
@@ -112,6 +114,7 @@ func (encr *EncrAesCbcCrypto) Encrypt(plainText []byte) ([]byte, error) {
 	}
 
 	// Encryption
+	verifhook.At("encr.aescbc.beforecrypt", len(plainText))
 	cbcBlockMode := cipher.NewCBCEncrypter(encr.Block, initializationVector) // #nosec G407
 	cbcBlockMode.CryptBlocks(cipherText[aes.BlockSize:], plainText)
 
